@@ -480,7 +480,23 @@ func bindI32Pow[T i32Powable](builder wazero.HostModuleBuilder, suffix string) w
 func bindI64Pow[T i64Powable](builder wazero.HostModuleBuilder, suffix string) wazero.HostModuleBuilder {
 	return builder.NewFunctionBuilder().
 		WithFunc(func(_ context.Context, base uint64, exp uint64) uint64 {
-			return uint64(xmath.IntPow(T(base), int(exp)))
+			// exp is the raw 64-bit exponent: int(exp) turns u64 exponents >= 2^63 into
+			// negative ones (IntPow then computes 1/x or panics for base 0). Square and
+			// multiply over the unsigned value instead; T's arithmetic wraps.
+			var minusOne T
+			minusOne--
+			if minusOne < 0 && int64(exp) < 0 {
+				// signed type, negative exponent: unchanged behaviour
+				return uint64(xmath.IntPow(T(base), int(exp)))
+			}
+			x, y := T(base), T(1)
+			for e := exp; e > 0; e >>= 1 {
+				if e&1 == 1 {
+					y *= x
+				}
+				x *= x
+			}
+			return uint64(y)
 		}).Export("pow_" + suffix)
 }
 
